@@ -63,6 +63,19 @@ def get_subscript(ip, st, obj, idx):
         if isinstance(idx, (SSlice, slice)):
             return LRef(r)
         return r
+    from .text import SText
+
+    if isinstance(obj, SText):
+        n = obj.length
+        if isinstance(idx, (SSlice, slice)):
+            if isinstance(idx, slice):
+                idx = SSlice(idx.start, idx.stop, idx.step)
+            start, stop, step = Q.slice_indices(idx, n)
+            if not (isinstance(step, int) and step == 1):
+                raise Unsupported("extended slice of a text")
+            return obj.slice(start, imax(start, stop))
+        k = norm_index(st, idx, n, "string index out of range" if obj.kind == "str" else "index out of range")
+        return obj.get(k)
     if isinstance(obj, (tuple, SSeq, SRange)):
         n = Q.seq_len(obj)
         if isinstance(idx, (SSlice, slice)):
@@ -417,6 +430,24 @@ def call_method(ip, st, recv, name, args, kwargs):
             if len(args) > 1:
                 return args[1]
             _raise(KeyError, repr(k))
+    if type(recv).__name__ == "SText" and name == "decode":
+        # assumed contract on bytes.decode('utf-8'): raises UnicodeDecodeError on ill-formed input; otherwise
+        # yields the characters successive decode steps yield (so the total width is the column difference)
+        if recv.kind != "bytes":
+            _raise(AttributeError, "'str' object has no attribute 'decode'")
+        if st.fork(2) == 1:
+            _raise(UnicodeDecodeError, "invalid utf-8")
+        from .text import SText
+
+        d = SText("str", st.fresh_int("decoded_len"), st.fresh_name("decoded"))
+        st.assume(V._cmp(">=", d.length, 0))
+        d.decoded_from = recv
+        h = getattr(ip.task.c, "decode_model", None)
+        if h is not None:
+            h(st, recv, d)
+        return d
+    if isinstance(recv, SExc) and name == "with_traceback":
+        return recv
     if isinstance(recv, tuple) and name == "index":
         x = args[0]
         conds, none_before = [], True
@@ -437,6 +468,8 @@ def call_method(ip, st, recv, name, args, kwargs):
 
 def b_len(ip, st, x):
     x = st.force(x)
+    if type(x).__name__ == "SText":
+        return x.length
     if isinstance(x, SObj):
         if x.base_list:
             return Q.seq_len(x.fields[x.base_list])
@@ -622,6 +655,10 @@ def b_isinstance(ip, st, x, cls):
             return issubclass(int, c)
         if isinstance(x, SReal):
             return issubclass(float, c)
+        if type(x).__name__ == "SText":
+            return issubclass(str if x.kind == "str" else bytes, c)
+        if isinstance(x, SOpaque) and x.kind == "Char":
+            return issubclass(str, c)
         if isinstance(x, SSlice):
             return issubclass(slice, c)
         if isinstance(x, LRef):
@@ -775,6 +812,10 @@ def b_callable(ip, st, x):
 
 
 def b_ord(ip, st, c):
+    if isinstance(c, SOpaque) and c.kind == "Char":
+        from .text import char_ord
+
+        return char_ord(c)
     if isinstance(c, Sym):
         return ip.task.sym_ord(ip, st, c)
     try:
@@ -787,7 +828,9 @@ def b_chr(ip, st, n):
     n = st.force(n)
     if isinstance(n, Sym):
         st.partial(both(V._cmp(">=", n, 0), V._cmp("<", n, 0x110000)), ValueError, "chr() arg not in range(0x110000)")
-        return ip.task.sym_chr(ip, st, n)
+        from .text import chr_of
+
+        return chr_of(n)
     try:
         return chr(n)
     except ValueError as ex:
@@ -823,6 +866,10 @@ def b_wraps(ip, st, fn, **kw):
 
 def b_partial(ip, st, fn, *args, **kw):
     raise Unsupported("functools.partial")
+
+
+class _UDE(UnicodeDecodeError):
+    pass
 
 
 TABLE = {
